@@ -144,6 +144,24 @@ PROPS["C15"] = dict(
               spec("H-C15b", "./pkg/astnormalization", FWD, "VerifC15Forwarding", [], "template with symbolic variable presence (12 combinations)", ["checked"])],
 )
 
+C08S = ["postprocess/c08_structure.go"]
+
+def c08(k, mode, outside, timeout=1800):
+    return spec("H-C08a[%d,%d,%d]" % (k, mode, outside), "./pkg/engine/postprocess", C08S, "VerifC08Structure", [k, mode, outside],
+                "%d single fetches, every acyclic dependency relation (symbolic bits), every input order, 3 id assignments%s; organizer = %s (multi-fetch merging off)" % (k, ", optional dependencies on out-of-tree fetch ids listed first/last" if outside else "", "scheduler (with its validator and wave fallback)" if mode else "legacy waves (orderSequenceByDependencies + createParallelNodes)"),
+                ["organized"], timeout=timeout)
+
+PROPS["C08"] = dict(
+    title="Fetch execution respects data dependencies under every schedule",
+    level_text="PARTIAL (structural half): bounded symbolic execution of the fetch-tree organizers from go/ssa; for every dependency relation/input order within the bound the organized Sequence/Parallel tree contains every fetch once and sequences every in-tree dependency before its dependant (reference 'completed-before' relation written independently of validateSchedule)",
+    level_note="partial: the runtime half (loader issue-after-merge under interleavings, H-C08c) and multi-fetch merging are not covered; bounds: number of fetches; trusted base: gosym, z3",
+    design_ref="DESIGN.md §4 C08",
+    assumptions=["the dependency relation is acyclic (constructed so: a fetch depends only on fetches of lower topological rank)"],
+    stubs=[],
+    quick=[c08(4, 0, 0), c08(4, 1, 0), c08(3, 0, 1), c08(3, 1, 1)],
+    thorough=[c08(5, 0, 0), c08(5, 1, 0), c08(4, 1, 1, 3000)],
+)
+
 NOT_APPLICABLE = {
     "C20": "The gRPC datasource's data path runs on protoreflect/dynamicpb/protocompile (reflection, unsafe, generated descriptors); no SSA->SMT encoding of it is within reach of the engine built here, and the property is about exactly that path (DESIGN.md §5).",
 }
